@@ -134,6 +134,18 @@ func (c *Ctx) Nontrivial(sig string) {
 	c.mu.Unlock()
 }
 
+// WatchdogBudget is the number of watchdog firings after which a run stops
+// starting new cases and long inner loops give up: a tree on which everything
+// hangs must cost minutes, not hours. The cases that are skipped are counted as
+// not judged; the verdict comes from what was observed before.
+const WatchdogBudget = 12
+
+// Timeout records one watchdog firing.
+func (c *Ctx) Timeout() { c.Count("watchdog_timeouts", 1) }
+
+// OverBudget reports whether the watchdog budget is used up.
+func (c *Ctx) OverBudget() bool { return c.Counter("watchdog_timeouts") >= WatchdogBudget }
+
 // Counter reads a counter.
 func (c *Ctx) Counter(name string) int64 {
 	c.mu.Lock()
@@ -382,6 +394,11 @@ func Run(c *Ctx, chk Check, only int) int {
 					i := int(atomic.AddInt64(&next, 1))
 					if i >= n {
 						return
+					}
+					if c.OverBudget() {
+						c.NotJudged(1)
+						c.Count("cases_skipped_watchdog_budget_used_up", 1)
+						continue
 					}
 					func() {
 						defer func() {
